@@ -348,6 +348,31 @@ impl<'ast, 's> Visit<'ast> for Finder<'s> {
                     }
                 }
             }
+            // ---- R6c (iterator form): `<bytes>.iter().all(|&c| c == X)` / `.any(|&c| c == X)` on byte slices
+            syn::Expr::MethodCall(mc)
+                if self.on("R6c") && (mc.method == "all" || mc.method == "any") && mc.args.len() == 1
+                    && matches!(&mc.args[0], syn::Expr::Closure(_))
+                    && matches!(&*mc.receiver, syn::Expr::MethodCall(i) if i.method == "iter" && i.args.is_empty()) =>
+            {
+                if let (syn::Expr::Closure(cl), syn::Expr::MethodCall(it)) = (&mc.args[0], &*mc.receiver) {
+                    if cl.inputs.len() == 1 {
+                        let pat = self.txt(&cl.inputs[0]).replace(' ', "");
+                        let (var, byref) = match pat.strip_prefix('&') { Some(v) => (v.to_string(), false), None => (pat.clone(), true) };
+                        if let syn::Expr::Binary(b) = &*cl.body {
+                            if matches!(b.op, syn::BinOp::Eq(_)) {
+                                let l = self.txt(&*b.left).replace(' ', "");
+                                let want = if byref { format!("*{var}") } else { var.clone() };
+                                let r = self.txt(&*b.right);
+                                if l == want && !r.contains(&var) {
+                                    let f = if mc.method == "all" { "bytes_all_eq" } else { "bytes_contains" };
+                                    self.push(range_of(mc), format!("{f}({}, {})", self.txt(&*it.receiver), r), "R6c");
+                                    return;
+                                }
+                            }
+                        }
+                    }
+                }
+            }
             // ---- R6c: `<bytes>.contains(&X)` on byte slices
             syn::Expr::MethodCall(mc)
                 if self.on("R6c") && mc.method == "contains" && mc.args.len() == 1
